@@ -327,7 +327,7 @@ def loop_body_open(toks, i):
 
 
 def rw_R4_for_desugar(text, which, site, log):
-    """for PAT in EXPR BODY -> { let mut vit_N = EXPR; loop { match vit_N.next() { Some(PAT) => BODY, None => break, } } }
+    """for PAT in EXPR BODY -> let mut vit_N = EXPR; loop { match vit_N.next() { Some(PAT) => BODY, None => break, } }
     applied to the loop ordinals listed in `which` (1-based, within this fn text)."""
     for n in sorted(which, reverse=True):
         toks, loops = find_loops(text)
@@ -353,7 +353,7 @@ def rw_R4_for_desugar(text, which, site, log):
         expr = text[toks[j + 1].start:toks[bo].start].strip()
         bc = match_close(toks, bo)
         body = text[toks[bo].start:toks[bc].end]
-        new = ('{ let mut vit_%d = %s; %sloop { match vit_%d.next() { Some(%s) => %s, None => { break; } } } }'
+        new = ('let mut vit_%d = %s; %sloop { match vit_%d.next() { Some(%s) => %s, None => { break; } } }'
                % (n, expr, label, n, pat, body))
         text = text[:start] + new + text[toks[bc].end:]
         log.add('R4(for-desugar)', '%s loop %d' % (site, n))
